@@ -349,12 +349,69 @@ def _same_array(a, b):
     return a.shape == b.shape and bool(np.all((a == b) | (np.isnan(a) & np.isnan(b))))
 
 
+# ---- histogram and frequency counts through the driver ---------------------------------------------------------------------
+HIST_LISTS = [(1,), (3,), (5,), (1, 3), (3, 5), (1, 5), (1, 3, 5)]
+
+
+def h_hist(ctx):
+    """`-m obs -hist -b <type> -r <thresholds>`: the drawn percentages are the event counts of the documented intervals.  The
+    file holds every finite value class (below, =t1, between, =t2, between, =t3, above) with its own multiplicity 1..7."""
+    import os
+    import matplotlib.pyplot as mpl
+    from mc import gen
+    emb = ctx.choose("embedding", EMBEDDINGS[:1] + EMBEDDINGS[2:], free=True)
+    bin_type = ctx.choose("bin_type", BIN_TYPES, free=True)
+    tl = ctx.choose("thresholds", [t for t in HIST_LISTS if len(t) >= (2 if "within" in bin_type else 1)], free=True)
+    thresholds = [emb[i] for i in tl]
+    vals = []
+    for k in range(7):
+        vals += [emb[k]] * (k + 1)
+    T0 = 1330387200
+    ai = gen.AInput("A", [T0 + 86400 * i for i in range(len(vals))], [0.0], [(1, 50.0, 10.0, 5.0)])
+    ai.fields["obs"] = {(i, 0, 0): v for i, v in enumerate(vals)}
+    ai.fields["fcst"] = {(i, 0, 0): vals[-1 - i] for i in range(len(vals))}
+    d = os.path.join(H.scratch(), "c07hist")
+    os.makedirs(d, exist_ok=True)
+    path = gen.text_file(ai, os.path.join(d, "A%d.txt" % EMBEDDINGS.index(emb)))
+    out = os.path.join(d, "h%d.png" % os.getpid())
+    evs = events_for(bin_type, thresholds)
+    counts = [sum(1 for v in vals if ref_event(bin_type, v, t, u)) for (t, u) in evs]
+    for field, fvals in (("obs", vals), ("fcst", vals[::-1])):
+        argv = [path, "-m", field, "-hist", "-b", bin_type, "-r", ",".join(gen.fmt_num(t) for t in thresholds), "-f", out]
+        r = H.run_cli(argv)
+        if r.kind != "ok":
+            ctx.fail("hist:%s:%s" % (r.kind, r.site or "rejected"), bin_type=bin_type, thresholds=thresholds)
+            continue
+        lines = [l for ax in mpl.gcf().axes for l in ax.get_lines() if len(l.get_xdata()) == len(evs)]
+        if not ctx.require(len(lines) >= 1, "hist:no-series", bin_type=bin_type):
+            continue
+        gx = [float(v) for v in lines[0].get_xdata()]
+        gy = [float(v) for v in lines[0].get_ydata()]
+        tot = float(sum(counts))
+        ey = [100.0 * c / tot if tot else float("nan") for c in counts]
+        ex = [t if u is None else (t + u) / 2.0 for (t, u) in evs]
+        ok = all(abs(a - b) < 1e-9 for a, b in zip(gx, ex)) and all((math.isnan(a) and math.isnan(b)) or abs(a - b) < 1e-9 for a, b in zip(gy, ey))
+        ctx.require(ok, "hist:%s" % bin_type, field=field, thresholds=thresholds, expected=list(zip(ex, ey)), actual=list(zip(gx, gy)))
+    ctx.observe((bin_type, tl, tuple(counts)))
+    ctx.outcome("events=%d" % len(evs))
+    ctx.nontrivial(sum(counts) > 0)
+
+
 # ------------------------------------------------------------------------------------------------
 SUBS = {"sites": harness}
 
 
 def run(tier, only=None):
     subs = []
+    if only in (None, "hist"):
+        t0 = time.time()
+        st = explore.explore(h_hist, mode="full", repo_root=core.REPO, time_cap=600)
+        subs.append(core.Sub.from_e1(
+            "hist", st, bound="full product 2 embeddings x 8 bin types x the increasing threshold lists over three representatives, -hist of obs and fcst through the driver",
+            rule="one execution = two histograms of a file that holds every finite value class with its own multiplicity; non-trivial = at least one case is in a bin",
+            wall=time.time() - t0))
+    if only not in (None, "sites"):
+        return subs
     t0 = time.time()
     st = explore.explore(harness, mode="full", repo_root=core.REPO)
     subs.append(core.Sub.from_e1(
@@ -366,6 +423,6 @@ def run(tier, only=None):
 
 
 def replay(rec):
-    ctx, _ = explore.replay(harness, rec["choices"], rec.get("labels"), repo_root=core.REPO)
+    ctx, _ = explore.replay(h_hist if rec.get("subcheck") == "hist" else harness, rec["choices"], rec.get("labels"), repo_root=core.REPO)
     want = rec["signature"][1]
     return [v.locus for v in ctx.violations if v.locus == want]
